@@ -259,14 +259,15 @@ open RsslVerif.Gen.SlotCompile RsslVerif.Model.SlotsCompile RsslVerif.Lemmas.Slo
     checker every declarator of a global-variable declaration starts from a FRESH language binding (nothing but the
     attribute result, the base type and the storage class is computed before the loop over the declarators; the binding
     the annotations write is the `lang_slot` of the global `insert_global` has just pushed with
-    `LanguageBinding::default()`), the annotation loop, the attribute overrides after it, the attribute fold and the
-    cbuffer path have the statement sequence `Model.SlotsFront` mirrors; the exporters read that bound module and list
+    `LanguageBinding::default()`), the annotation loop, the attribute overrides after it, the whole attribute loop
+    (`parse_attributes_for_global`, `parse_expr_as_u32`), the storage-class loop of `parse_globaltype` and the cbuffer
+    path have the statement sequence `Model.SlotsFront` mirrors; the exporters read that bound module and list
     bound root definitions in order, grouped by set
-    (38 comparisons with the comment-stripped, whitespace-normalised current source). -/
+    (39 comparisons with the comment-stripped, whitespace-normalised current source). -/
 theorem compile_shape_as_modelled :
     compileShape = ⟨true, true, true, true, true, true, true, true, true, true, true, true, true, true, true, true,
                     true, true, true, true, true, true, true, true, true, true, true, true, true, true, true, true,
-                    true, true, true, true, true, true⟩ := by decide
+                    true, true, true, true, true, true, true⟩ := by decide
 
 /-- **Per-pipeline default group.**  For every module the type checker can hand to `compile()` (any declaration
     sequence, any list of pipelines) and every argument set: the call returns one result per requested pipeline
@@ -472,14 +473,15 @@ section PerDeclarator
 open RsslVerif.Gen.SlotCompile RsslVerif.Model.SlotsCompile RsslVerif.Lemmas.SlotsCompile
 open RsslVerif.Model.SlotsFront RsslVerif.Lemmas.SlotsFront
 
-/-- The attributes of a declaration are folded once: the group / binding index in force is the one named by the LAST
-    attribute that names one (`rssl::bind_group(g)`, `vk::binding(i, g)` / `vk::binding(i[, g])`), `bindless` is set by
-    any `rssl::bindless`. -/
-theorem attribute_fold_later_wins (attrs : List Attr) :
-    (parseAttributes attrs).groupOverride = lastSome attrGroup attrs ∧
-    (parseAttributes attrs).indexOverride = lastSome attrIndex attrs ∧
-    (parseAttributes attrs).bindless = attrs.any isBindless :=
-  ⟨parseAttributes_group attrs, parseAttributes_index attrs, parseAttributes_bindless attrs⟩
+/-- The attributes of a declaration are read once, in order: an ill-formed one rejects the declaration; otherwise
+    the group / binding index in force is the one named by the LAST attribute that names one
+    (`rssl::bind_group(g)`, `vk::binding(i)` / `vk::binding(i, g)`), `bindless` is set by any `rssl::bindless`. -/
+theorem attribute_fold_later_wins {attrs : List Attr} {attr : AttrResult} (h : parseAttributes attrs = .ok attr) :
+    attrs.all wellFormed = true ∧
+    attr.groupOverride = lastSome attrGroup attrs ∧
+    attr.indexOverride = lastSome attrIndex attrs ∧
+    attr.bindless = attrs.any isBindless :=
+  ⟨attrLoop_wellFormed attrs h, parseAttributes_group h, parseAttributes_index h, parseAttributes_bindless h⟩
 
 /-- On the fresh slot of one name: if its annotations are accepted, they are all `register(..)` annotations and every
     one of them (the parser never produces an empty `register()`) asks for the same language binding — the one the
@@ -507,13 +509,17 @@ theorem declarator_groups_independent {σ : Type} (attrs : List Attr) (base : Op
           parseGlobalVariable attrs base isExtern [] [d] = .ok [g] ∧
           g.name = d.name ∧ g.shape = d.shape ∧ g.staticSampler = d.staticSampler ∧
           g.langSlot.set = explicitGroup attrs d.annotations := by
-  obtain ⟨news, h1, h2, h3⟩ := declaratorLoop_spec h
-  refine ⟨news, h1, h2, ?_⟩
-  intro j d hd
-  obtain ⟨g, hg, hs⟩ := h3 j d hd
-  obtain ⟨n1, n2, n3, _, n5⟩ := declaratorStep_single hs
-  refine ⟨g, hg, ?_, n1, n2, n3, n5⟩
-  simp [parseGlobalVariable, declaratorLoop, hs]
+  unfold parseGlobalVariable at h
+  split at h
+  · cases h
+  · rename_i attr ha
+    obtain ⟨news, h1, h2, h3⟩ := declaratorLoop_spec h
+    refine ⟨news, h1, h2, ?_⟩
+    intro j d hd
+    obtain ⟨g, hg, hs⟩ := h3 j d hd
+    obtain ⟨n1, n2, n3, _, n5⟩ := declaratorStep_single ha hs
+    refine ⟨g, hg, ?_, n1, n2, n3, n5⟩
+    simp [parseGlobalVariable, ha, declaratorLoop, hs]
 
 /-- The same in the form the seeded defect C06-4 violated: two accepted declarations with the same attributes —
     whatever their other declarators say and wherever they stand — give a declarator with the same annotations the
@@ -539,20 +545,18 @@ def declOf (attrs : List Attr) (base : Option ObjKind) (isExtern : Bool) (d : De
     (if isExtern && d.shape.peelable then base else none) (if d.shape.peelable then d.shape.len else none))
 
 /-- **Declaration order = declarator order, one allocator declaration per declarator.**  For every accepted file that
-    contains the declaration `attrs base ds` between any root definitions `pre` and `post`: what the slot allocator is
-    given is (front end of `pre`) ++ (one entry per declarator, in order, `declOf` of that declarator alone) ++
-    (front end of `post`) — no state is carried between root definitions or between declarators. -/
+    contains the declaration `attrs base mods ds` between any root definitions `pre` and `post`: what the slot
+    allocator is given is (front end of `pre`) ++ (one entry per declarator, in order, `declOf` of that declarator
+    alone) ++ (front end of `post`) — no state is carried between root definitions or between declarators. -/
 theorem front_lists_each_declarator {pre post : List RootItem} {attrs : List Attr} {base : Option ObjKind}
-    {isExtern : Bool} {ds : List (Declarator Shape)} {out : List (String × Decl)}
-    (h : frontItems (pre ++ RootItem.globals attrs base isExtern ds :: post) = .ok out) :
-    ∃ opre opost, frontItems pre = .ok opre ∧ frontItems post = .ok opost ∧
+    {mods : List StorageMod} {ds : List (Declarator Shape)} {out : List (String × Decl)}
+    (h : frontItems (pre ++ RootItem.globals attrs base mods ds :: post) = .ok out) :
+    ∃ opre opost isExtern, frontItems pre = .ok opre ∧ frontItems post = .ok opost ∧
+      isExternStorage mods = .ok isExtern ∧
       out = opre ++ ds.map (declOf attrs base isExtern) ++ opost := by
   obtain ⟨opre, orest, h1, h2, h3⟩ := frontItems_append pre _ h
-  have h2' : frontItems ([RootItem.globals attrs base isExtern ds] ++ post) = .ok orest := by simpa using h2
+  have h2' : frontItems ([RootItem.globals attrs base mods ds] ++ post) = .ok orest := by simpa using h2
   obtain ⟨omid, opost, h4, h5, h6⟩ := frontItems_append _ post h2'
-  refine ⟨opre, opost, h1, h5, ?_⟩
-  rw [h3, h6, List.append_assoc]
-  congr 2
   simp only [frontItems] at h4
   split at h4
   · cases h4
@@ -561,21 +565,27 @@ theorem front_lists_each_declarator {pre post : List RootItem} {attrs : List Att
     subst h4
     split at hx
     · cases hx
-    · rename_i gs hgs
-      cases hx
-      obtain ⟨news, e1, e2, e3⟩ := declarator_groups_independent attrs base isExtern hgs
-      simp only [List.nil_append] at e1
-      subst e1
-      apply List.ext_getElem?
-      intro j
-      simp only [List.getElem?_map]
-      cases hd : ds[j]? with
-      | none =>
-        have : gs.length ≤ j := by rw [e2]; exact List.getElem?_eq_none_iff.1 hd
-        simp [List.getElem?_eq_none_iff.2 this]
-      | some d =>
-        obtain ⟨g, hg, _, n1, n2, n3, n4⟩ := e3 j d hd
-        simp [hg, declOf, GlobalVar.toDecl, n1, n2, n3, n4]
+    · rename_i isExtern hext
+      refine ⟨opre, opost, isExtern, h1, h5, hext, ?_⟩
+      rw [h3, h6, List.append_assoc]
+      congr 2
+      split at hx
+      · cases hx
+      · rename_i gs hgs
+        cases hx
+        obtain ⟨news, e1, e2, e3⟩ := declarator_groups_independent attrs base isExtern hgs
+        simp only [List.nil_append] at e1
+        subst e1
+        apply List.ext_getElem?
+        intro j
+        simp only [List.getElem?_map]
+        cases hd : ds[j]? with
+        | none =>
+          have : gs.length ≤ j := by rw [e2]; exact List.getElem?_eq_none_iff.1 hd
+          simp [List.getElem?_eq_none_iff.2 this]
+        | some d =>
+          obtain ⟨g, hg, _, n1, n2, n3, n4⟩ := e3 j d hd
+          simp [hg, declOf, GlobalVar.toDecl, n1, n2, n3, n4]
 
 /-- `Agrees`, read at one position -/
 theorem agrees_get {p : Params} {dflt : Nat} : ∀ {ds : List Decl} {bs : List (Option Binding)},
@@ -604,17 +614,17 @@ theorem agrees_get {p : Params} {dflt : Nat} : ∀ {ds : List Decl} {bs : List (
         exact ⟨ob', by simpa using e1, e2, e3⟩
 
 /-- **Every declarator lands in its own group, end to end.**  For every accepted file that contains the declaration
-    `attrs base ds` (between any root definitions), every list of pipelines, target, mode: in every pipeline
+    `attrs base mods ds` (between any root definitions), every list of pipelines, target, mode: in every pipeline
     `compile()` returns — with THAT pipeline's default group `dflt` — the j-th declarator of the declaration is bound
     exactly when the property says a global of its kind is, and then in group
     `(explicitGroup attrs (ITS annotations)).getD dflt`: the declaration's last group attribute, else the space of
     its own register annotation, else the pipeline's default group — whatever the other declarators say. -/
 theorem declarator_lands_in_its_own_group {a : Args} {pre post : List RootItem} {attrs : List Attr}
-    {base : Option ObjKind} {isExtern : Bool} {ds : List (Declarator Shape)} {nds : List (String × Decl)}
+    {base : Option ObjKind} {mods : List StorageMod} {ds : List (Declarator Shape)} {nds : List (String × Decl)}
     {ps : List Pipeline} {outs : List Built}
-    (hf : frontItems (pre ++ RootItem.globals attrs base isExtern ds :: post) = .ok nds)
+    (hf : frontItems (pre ++ RootItem.globals attrs base mods ds :: post) = .ok nds)
     (h : compile a (Module.fresh (nds.map (·.1)) (nds.map (·.2)) ps) = .ok outs) :
-    ∃ opre, frontItems pre = .ok opre ∧
+    ∃ opre isExtern, frontItems pre = .ok opre ∧ isExternStorage mods = .ok isExtern ∧
       ∀ (k : Nat) (b : Built), outs[k]? = some b → ∃ dflt, (requestedDefaults a.mode ps)[k]? = some dflt ∧
         ∀ (j : Nat) (d : Declarator Shape), ds[j]? = some d →
           ∃ ob, b.slots.bindings[opre.length + j]? = some ob ∧
@@ -622,8 +632,8 @@ theorem declarator_lands_in_its_own_group {a : Args} {pre post : List RootItem} 
             (ob = none → bound (paramsFor a.target a.supportBufferAddress) decl = false) ∧
             ∀ bd, ob = some bd → bound (paramsFor a.target a.supportBufferAddress) decl = true ∧
               bd.set = (explicitGroup attrs d.annotations).getD dflt := by
-  obtain ⟨opre, opost, h1, _, h3⟩ := front_lists_each_declarator hf
-  refine ⟨opre, h1, ?_⟩
+  obtain ⟨opre, opost, isExtern, h1, _, hext, h3⟩ := front_lists_each_declarator hf
+  refine ⟨opre, isExtern, h1, hext, ?_⟩
   intro k b hb
   obtain ⟨dflt, hd1, _, _, hagree, _⟩ :=
     per_pipeline_tiling (fresh_module_unbound _ _ ps).1 (fresh_module_unbound _ _ ps).2 h k b hb
@@ -647,9 +657,9 @@ theorem declarator_lands_in_its_own_group {a : Args} {pre post : List RootItem} 
     with pipelines of default group 2 and 0: `a` is in group 1, `b` in the default group of each pipeline (the seeded
     defect C06-4 put it into group 1), `c` and `d` in group 3 (the attribute wins over both register spaces). -/
 def exampleItems : List RootItem :=
-  [ .globals [] (some .Texture2D) true
+  [ .globals [] (some .Texture2D) []
       [ ⟨"a", [.register ⟨some (.T, 0), some 1⟩], false, ⟨none, true⟩⟩, ⟨"b", [], false, ⟨some 2, true⟩⟩ ],
-    .globals [.bindGroup 3] (some .SamplerState) true
+    .globals [.bindGroup 3] (some .SamplerState) [.extern]
       [ ⟨"c", [.register ⟨some (.S, 2), some 1⟩, .register ⟨some (.S, 2), some 1⟩], false, ⟨none, true⟩⟩,
         ⟨"d", [.register ⟨none, some 2⟩], false, ⟨none, true⟩⟩ ] ]
 
@@ -666,11 +676,22 @@ example : ((frontItems exampleItems).toOption.bind fun nds =>
   decide
 
 /-- a second annotation that says something else is rejected (and names the declarator), an agreeing one is not -/
-example : (match frontItems [.globals [] (some .Texture2D) true
+example : (match frontItems [.globals [] (some .Texture2D) []
       [⟨"a", [.register ⟨some (.T, 0), some 1⟩], false, ⟨none, true⟩⟩,
        ⟨"b", [.register ⟨some (.T, 0), some 1⟩, .register ⟨some (.T, 0), some 2⟩], false, ⟨none, true⟩⟩]] with
       | .error e => some e
       | .ok _ => none) = some (.invalidRegisterAnnotation "b") := by decide
+
+/-- an ill-formed attribute rejects the declaration; `static extern` is a modifier conflict -/
+example : (match frontItems [.globals [.bindGroup 1, .badCount "binding"] (some .Texture2D) []
+      [⟨"a", [], false, ⟨none, true⟩⟩]] with
+      | .error e => some e
+      | .ok _ => none) = some (.attributeArgumentCount "binding") := by decide
+
+example : (match frontItems [.globals [] (some .Texture2D) [.static, .static, .extern]
+      [⟨"a", [], false, ⟨none, true⟩⟩]] with
+      | .error e => some e
+      | .ok _ => none) = some (.modifierConflict "extern" "static") := by decide
 
 end PerDeclarator
 
